@@ -898,8 +898,8 @@ impl CxxCodeBodyTranslator {
                     BuiltinFunctionKind::Max => format!("std::max({})", formatted_args.join(", ")),
                     BuiltinFunctionKind::Min => format!("std::min({})", formatted_args.join(", ")),
                     BuiltinFunctionKind::Tr => format!(
-                        "QCoreApplication::translate({context:?}, {args})",
-                        context = self.tr_context,
+                        "QCoreApplication::translate({context}, {args})",
+                        context = format_string_literal(&self.tr_context),
                         args = formatted_args.join(", "),
                     ),
                 }
@@ -971,8 +971,8 @@ impl CxxCodeBodyTranslator {
                 }
                 ConstantValue::Integer(v) => v.to_string(),
                 ConstantValue::Float(v) => format!("{v:e}"),
-                ConstantValue::CString(v) => format!("{v:?}"), // TODO: escape per C spec)
-                ConstantValue::QString(v) => format!("QStringLiteral({v:?})"),
+                ConstantValue::CString(v) => format_string_literal(v),
+                ConstantValue::QString(v) => format!("QStringLiteral({})", format_string_literal(v)),
                 ConstantValue::NullPointer => "nullptr".to_owned(),
                 ConstantValue::EmptyList => "{}".to_owned(),
             },
@@ -982,6 +982,29 @@ impl CxxCodeBodyTranslator {
             Operand::Void(_) => "void()".to_owned(),
         }
     }
+}
+
+/// Formats the given string as a C++ string literal.
+///
+/// Rust's `{:?}` isn't usable here since `\u{..}` isn't a valid escape sequence in C++.
+/// Control characters are written as three-digit octal escapes so that a following digit
+/// wouldn't be taken as a part of the escape sequence.
+fn format_string_literal(s: &str) -> String {
+    let mut literal = String::with_capacity(s.len() + 2);
+    literal.push('"');
+    for c in s.chars() {
+        match c {
+            '"' => literal.push_str("\\\""),
+            '\\' => literal.push_str("\\\\"),
+            '\n' => literal.push_str("\\n"),
+            '\r' => literal.push_str("\\r"),
+            '\t' => literal.push_str("\\t"),
+            c if c.is_ascii_control() => literal.push_str(&format!("\\{:03o}", c as u32)),
+            c => literal.push(c),
+        }
+    }
+    literal.push('"');
+    literal
 }
 
 fn member_access_op(a: &tir::Operand) -> &'static str {
